@@ -15,6 +15,7 @@ import ZwVerif.Props.C08
 import ZwVerif.Props.C09
 import ZwVerif.Props.C10
 import ZwVerif.Props.C10Closure
+import ZwVerif.Props.C09Order
 import ZwVerif.Props.C11
 import ZwVerif.Props.C12
 import ZwVerif.Props.C13
